@@ -15,6 +15,22 @@ def register(w):
         "properties": ["C13", "C07"],
     })
     C.register(w, {
+        "key": f"{F}::as_ast",
+        "params": {"p_var": "py"},
+        "requires": ["embeddable(p_var)"],
+        # the emitted node is what CPython's parser makes of repr(value); with the trusted round
+        # trip literal_eval(parse(repr(v))) == v this is "evaluates back to an equal value"
+        "ensures": ["same(result, lambda_of(source_of(p_var)))"],
+        "raises": {},
+        "fresh": "deep",
+        "native": {"imports": "from func_adl.util_ast import as_ast", "call": "as_ast(p_var)"},
+        "assumes": ["CPython: ast.literal_eval(ast.parse(repr(v)).body[0].value) == v, same type, for "
+                    "str/int/finite float/bool/None/bytes and list/tuple/dict nestings (cross-checked "
+                    "bounded by engine B on ~10k values)",
+                    "str(v) == repr(v) for those types unless v is a str"],
+        "properties": ["C13"],
+    })
+    C.register(w, {
         "key": f"{F}::function_call",
         "params": {"function_name": "str", "args": "list"},
         "ensures": ["same(result, ast.Call(ast.Name(function_name), args, []))"],
